@@ -244,7 +244,15 @@ pub fn timing_points(r: &mut Rng, o: &Opts, last_time: f64, out: &mut Vec<String
 pub fn colours(r: &mut Rng, o: &Opts, out: &mut Vec<String>) {
     let l = o.level;
     // the format puts no bound on the number of combo colours
-    let n = if r.chance(1, 40) { r.range(250, 300) } else if r.chance(1, 5) { r.range(7, 14) } else { r.range(0, 4) };
+    let roll = r.next() % 40;
+    if roll == 1 {
+        // exactly the crate's default palette, spelled out in the file
+        for (i, c) in rosu_map::section::colors::Colors::DEFAULT_COMBO_COLORS.iter().enumerate() {
+            out.push(format!("Combo{}: {},{},{}", i + 1, c.red(), c.green(), c.blue()));
+        }
+        return;
+    }
+    let n = if roll == 0 { r.range(250, 300) } else if r.chance(1, 5) { r.range(7, 14) } else { r.range(0, 4) };
     for i in 1..=n {
         let c = format!("{},{},{}", int(r, l, 0, 255), int(r, l, 0, 255), int(r, l, 0, 255));
         out.push(kv(r.next(), l, &format!("Combo{i}"), &c));
